@@ -24,12 +24,16 @@ def pad (n : Int) (w : Nat) : String :=
   let s := toString n.toNat
   String.ofList (List.replicate (w - s.length) '0') ++ s
 
-/-- `time.Unix(n, 0).UTC().Format(time.RFC3339)` for years 0..9999 -/
-def formatRFC3339 (unix : Int) : Bytes :=
-  let days := unix.fdiv 86400
-  let secs := unix - days * 86400
+/-- `time.Unix(n, 0).In(FixedZone("", off)).Format(time.RFC3339)` for years 0..9999 and whole-minute offsets -/
+def formatRFC3339 (unix : Int) (off : Int := 0) : Bytes :=
+  let loc := unix + off
+  let days := loc.fdiv 86400
+  let secs := loc - days * 86400
   let (y, m, d) := civilFromDays days
-  (s!"{pad y 4}-{pad m 2}-{pad d 2}T{pad (secs / 3600) 2}:{pad ((secs % 3600) / 60) 2}:{pad (secs % 60) 2}Z").b
+  let zone := if off == 0 then "Z" else
+    let a := off.natAbs
+    (if off < 0 then "-" else "+") ++ s!"{pad (a / 3600) 2}:{pad ((a % 3600) / 60) 2}"
+  (s!"{pad y 4}-{pad m 2}-{pad d 2}T{pad (secs / 3600) 2}:{pad ((secs % 3600) / 60) 2}:{pad (secs % 60) 2}" ++ zone).b
 
 def parseMailOptions (s : String) : Option MailOptions :=
   if s == "-" then none else
@@ -46,7 +50,10 @@ def parseRcptOptions (s : String) : Option RcptOptions :=
   let n := l "notify"
   some { notify := if n == "" then [] else (n.splitOn "+").map bytesOfHex, orcptType := bytesOfHex (l "orcpttype"),
          orcpt := bytesOfHex (l "orcpt"),
-         rrvs := if l "rrvs" == "nil" || l "rrvs" == "" then none else some (formatRFC3339 (Conv.intOf (l "rrvs"))) }
+         rrvs := if l "rrvs" == "nil" || l "rrvs" == "" then none else
+           match (l "rrvs").splitOn "@" with
+           | [n, off] => some (formatRFC3339 (Conv.intOf n) (Conv.intOf off))
+           | _ => some (formatRFC3339 (Conv.intOf (l "rrvs"))) }
 
 def parseCall (s : String) : Option Call :=
   match s.splitOn "/" with
